@@ -287,6 +287,67 @@ import (
 
 func verifReflectValueOf(x any) reflect.Value { return reflect.ValueOf(x) }
 
+func verifTypeOf(x any) string {
+	if x == nil {
+		return "<nil>"
+	}
+	return reflect.TypeOf(x).String()
+}
+
+// verifCensus: reflection-based count of syntax nodes reachable through exported fields.
+func verifCensus(root any) map[string]int {
+	counts := map[string]int{}
+	seen := map[uintptr]bool{}
+	isNode := func(t reflect.Type) bool {
+		// a Node has Pos() and End() methods returning a syntax.Pos
+		m1, ok1 := t.MethodByName("Pos")
+		m2, ok2 := t.MethodByName("End")
+		return ok1 && ok2 && m1.Type.NumOut() == 1 && m2.Type.NumOut() == 1 && m1.Type.Out(0).Name() == "Pos" && strings.HasSuffix(t.Elem().PkgPath(), "/syntax")
+	}
+	var visit func(v reflect.Value)
+	visit = func(v reflect.Value) {
+		switch v.Kind() {
+		case reflect.Pointer:
+			if v.IsNil() || v.Elem().Kind() != reflect.Struct {
+				return
+			}
+			if seen[v.Pointer()] {
+				return
+			}
+			seen[v.Pointer()] = true
+			if isNode(v.Type()) {
+				counts[v.Type().String()]++
+			}
+			e := v.Elem()
+			for i := 0; i < e.NumField(); i++ {
+				if e.Type().Field(i).IsExported() {
+					visit(e.Field(i))
+				}
+			}
+		case reflect.Struct:
+			pt := reflect.PointerTo(v.Type())
+			if v.Type().Name() != "" && isNode(pt) {
+				counts[pt.String()]++
+			}
+			for i := 0; i < v.NumField(); i++ {
+				if v.Type().Field(i).IsExported() {
+					visit(v.Field(i))
+				}
+			}
+		case reflect.Interface:
+			if !v.IsNil() {
+				visit(v.Elem())
+			}
+		case reflect.Slice, reflect.Array:
+			for i := 0; i < v.Len(); i++ {
+				visit(v.Index(i))
+			}
+		}
+	}
+	visit(reflect.ValueOf(root))
+	return counts
+}
+
 func verifDeepEq(a, b reflect.Value, mode int, seen map[[2]uintptr]bool) bool {
 	if !a.IsValid() || !b.IsValid() {
 		return a.IsValid() == b.IsValid()
